@@ -20,7 +20,7 @@ PID = "C12"
 CODE = {"LESS": -1, "MORE": 1, "SAME": 0, "NONE": 2}
 NAME = {v: k for k, v in CODE.items()}
 OPP = {-1: 1, 1: -1, 0: 0, 2: 2}
-HOOKED = ("U", "I", "Ex", "Dep", "Lit", "tuple")  # constructors whose types carry their own __type_order__
+HOOKED = ("U", "I", "Ex", "Dep", "Lit", "tuple", "tupvar")  # constructors whose types carry their own __type_order__
 
 
 def atom_index(t, n):
@@ -74,9 +74,9 @@ def expected(a, b, W):
             if all(s is not None for s in sub):
                 return merge_codes(sub)
             return None
-    if a[0] == "tuple" and b == ("raw", "tuple"):
+    if a[0] in ("tuple", "tupvar") and b == ("raw", "tuple"):
         return z3.IntVal(-1)
-    if b[0] == "tuple" and a == ("raw", "tuple"):
+    if b[0] in ("tuple", "tupvar") and a == ("raw", "tuple"):
         return z3.IntVal(1)
     if b[0] == "U" and a in b[1:]:
         return z3.IntVal(-1)
@@ -181,7 +181,7 @@ def universe(n, depth):
     t += [("type", K[0]), ("type", K[1]), ("type", ("obj",))]
     t += [("Lit", 0), ("Lit", 1), ("Lit", 0, 1), ("Lit", "a"), ("raw", "int"), ("raw", "str")]
     t += [("Dep", K[0], 0), ("Dep", K[0], 1), ("Dep", K[1], 0), ("Dep", ("obj",), 0)]
-    t += [("tuple", K[0], K[1]), ("tuple", K[1], K[0]), ("tuple", K[0]), ("raw", "tuple")]
+    t += [("tuple", K[0], K[1]), ("tuple", K[1], K[0]), ("tuple", K[0]), ("raw", "tuple"), ("tupvar", K[0]), ("tupvar", ("obj",))]
     if depth >= 2:
         t += [("U", ("I", K[0], K[1]), K[2 % n]), ("I", ("U", K[0], K[1]), K[2 % n]), ("U", ("Ex", K[0]), K[1]),
               ("I", ("SS", K[0]), K[1]), ("list", ("list", K[0])), ("list", ("list", K[1])), ("list", ("U", K[0], K[1])),
